@@ -61,7 +61,7 @@ BUILTIN_EXC_PARENT = {
 # str / list / dict / regex methods used in the package (pure w.r.t. the tree)
 PURE_METHODS = {
     "join", "split", "splitlines", "startswith", "endswith", "upper", "lower", "format", "ljust", "encode",
-    "items", "keys", "values", "get", "group", "match", "sub", "index", "count", "copy", "strip",
+    "items", "keys", "values", "get", "group", "match", "sub", "index", "count", "copy", "strip", "isascii", "casefold",
 }
 MUTATING_METHODS = {
     "appendleft", "popleft", "extendleft", "rotate",
